@@ -1,7 +1,7 @@
 """C12 — declared scratch size always suffices and scratch contents never matter."""
 import json
 import os
-from vlib import common, halpipe
+from vlib import common, halpipe, kspipe
 from vlib.common import log, ToolError
 
 LEVEL = "model_checking"
@@ -51,6 +51,22 @@ def run(rep, tier):
         log("[C12] corpus %s: %d events (%d take scratch, %d library calls in exact-size windows), %d rejected" % (name, len(events), with_scr, calls, nb))
         if first:
             rep.sample(first)
+    # 2b. scheme level: key generation, key preparation and every operation of the key-switching / external-product
+    #     families in exact-size windows (TLC-enumerated gadget shapes incl. cross-radix ones)
+    for name, mod, sub, per in (("c03", "Core/Gen_C03", "ks", 12 if quick else 150), ("c04", "Core/Gen_C04", "xp", 12 if quick else 150)):
+        path, n_all, n = kspipe.gen_descs(rep, wd, mod, mod + ("_quick" if quick else "_thorough"), name + "x", per_op=per, exact=True, weights={"keyswitch": 8, "xp": 6},
+                                          # glwe_pack_tmp_bytes only sees the result's layout: inputs laid out like the result
+                                          keep=lambda x: x["op"] != "pack" or (x["bin"] == x["bout"] and x["sin"] == x["sout"]))
+        events, bad = kspipe.run_and_validate(rep, wd, path, name + "x", shards=12, sub=sub)
+        calls = sum(len(r_["calls"]) for e in events for r_ in e["scr"])
+        total += calls
+        rep.evaluations += calls
+        rep.distinct += len(events)
+        # a panic that only an exact-size window provokes is a scratch failure as well
+        bad += [(i, "scr") for i, e in enumerate(events) if any(o["panic"] for o in e["outs"]) and (i, "scr") not in bad]
+        nb = kspipe.report(rep, events, bad, {"scr", "fill"}, name + "x")
+        rep.extra.setdefault("corpora", []).append({"corpus": name + " (exact scratch)", "descriptors": n, "events": len(events), "scratch_calls": calls})
+        log("[C12] corpus %s exact: %d behaviours (%d library calls in exact-size windows), %d rejected" % (name, len(events), calls, nb))
     # 3. monotonicity of the shape-parameterised size queries
     tb = os.path.join(wd, "tmpbytes.ndjson")
     rowsall = []
@@ -74,5 +90,5 @@ def run(rep, tier):
     rep.rule = ("every scratch-taking HAL call of the c09/c07/c08 corpora run in a canary-guarded window of exactly the number of bytes its companion query returns, on 4 back-ends x 2 "
                 "scratch fills; hook H4 logs every take and Scratch.tla replays the log (arena discipline, no failed take, high-water <= declared); results must not depend on the "
                 "scratch fill; size queries checked monotone over a grid; distinct = events that take scratch")
-    rep.assumptions += ["HAL layer only so far; core / CKKS / bin-fhe (operation, tmp_bytes) pairs are added as their harnesses land",
+    rep.assumptions += ["HAL layer plus the core key-switching / automorphism / trace / packing / LWE conversion / external product / CMux pairs (with their key generation and preparation calls); CKKS and bin-fhe pairs pending",
                         "window base is 64-byte aligned as ScratchOwned::alloc guarantees"]
